@@ -1,8 +1,8 @@
 SPECIFICATION Spec
 CONSTANTS
-  Dials <- DialsC
-  Accepts <- AcceptsC
-  AbortDials <- NoAborts
+  Dials <- DialsE
+  Accepts <- AcceptsE
+  AbortDials <- AbortsE
   DSide <- CSide
   DId <- CId
   ASide <- CSide
